@@ -48,6 +48,11 @@ class C07(ProgProp):
         import json
         import zlib
         dg = zlib.crc32(json.dumps(case["spec"]["templates"], sort_keys=True).encode())
+        if dg % 8 == 1 and not case["spec"].get("ctx_fault"):
+            # a completion subscriber raises (Exception or BaseException) out of the scheduler loop:
+            # whatever the awaiting tasks had overridden must be back when the error reaches the caller
+            case["spec"].setdefault("faults", {})["callbacks"] = {"#%d" % (1 + (dg // 8) % 6): "base" if (dg // 48) % 2 else True}
+            case["spec"]["ctx_fault"] = True
         if dg % 8 == 0 and not case["spec"].get("ctx_fault"):
             # the computation is stopped by the runaway-recursion guard (RuntimeError): whatever
             # was overridden at that moment must be back when the error reaches the caller
